@@ -283,7 +283,14 @@ func runC17(c *Ctx) {
 		if parseCall != nil {
 			pc := parseCall
 			c.CheckGuard("C17.G1", "resolve:parse-required", rr, nil, &GCheck{Name: "Parse(namespace, initialBytes) ok", MatchCall: func(c *Ctx, call *ssa.Call, env Env) bool { return call == pc }})
-			c.CheckGuard("C17.G1", "resolve:suffix-equality", rr, nil, cmpReject("uniqueSuffix != op.UniqueSuffix rejected", token.NEQ, pathIs("$1"), pathIs(c.Path(pc, nil)+"#0.UniqueSuffix")))
+			// evaluated from ResolveDocument with the helper's parameters renamed to caller-side paths, so the suffix
+			// extraction may sit in the caller or in the helper
+			isSuffix := func(s string) bool {
+				return strings.HasPrefix(s, "vdr/sidetreelongform/dochandler.getSuffix(") && strings.HasSuffix(s, "#0") && strings.Contains(s, ".ParseDID[")
+			}
+			c.CheckGuard("C17.G1", "resolve:suffix-equality", resolve, nil, cmpReject("suffix of the requested DID != parsed op.UniqueSuffix rejected", token.NEQ, isSuffix, func(s string) bool {
+				return strings.HasSuffix(s, "#0.UniqueSuffix") && strings.Contains(s, ".Parse[")
+			}))
 		}
 		// ResolveDocument: createReq == nil refused; suffix from >= 3 parts; same did string handed down
 		c.CheckGuard("C17.G1", "ResolveDocument:short-form-refused", resolve, nil, cmpReject("createReq == nil rejected", token.EQL, func(s string) bool { return strings.Contains(s, ".ParseDID[") && strings.HasSuffix(s, "#1") }, pathIs("nil")))
@@ -316,10 +323,18 @@ func runC17(c *Ctx) {
 	// id composition for long-form resolution: id = ns:suffix:initial-state, equivalent id = ns:suffix
 	if f := c.Fn("docutil", "GetTransformationInfoForUnpublished"); f != nil && rr != nil {
 		okCall := false
-		for _, cl := range callsTo(rr, f) {
-			a := cl.Call.Args
-			if len(a) == 5 && c.Path(a[0], nil) == nsField && c.Path(a[1], nil) == `""` && c.Path(a[2], nil) == `""` && c.Path(a[3], nil) == "$1" && c.Path(a[4], nil) == `$2[(strings.LastIndex($2,":") + 1):]` {
-				okCall = true
+		for _, rc := range callsTo(resolve, rr) {
+			env := c.calleeEnv(&rc.Call, rr, nil)
+			for _, cl := range callsTo(rr, f) {
+				a := cl.Call.Args
+				if len(a) != 5 {
+					continue
+				}
+				sfx, init := c.Path(a[3], env), c.Path(a[4], env)
+				okSfx := strings.HasPrefix(sfx, "vdr/sidetreelongform/dochandler.getSuffix(") && strings.HasSuffix(sfx, "#0") && strings.Contains(sfx, ".ParseDID[")
+				if c.Path(a[0], env) == nsField && c.Path(a[1], env) == `""` && c.Path(a[2], env) == `""` && okSfx && init == `$1[(strings.LastIndex($1,":") + 1):]` {
+					okCall = true
+				}
 			}
 		}
 		c.Check("C17.P2", "resolve:transformation-info-arguments", okCall, rr.Pos(), "transformation info is built from (namespace, suffix, the initial-state segment of the requested DID)")
